@@ -114,7 +114,8 @@ def run(ctx):
         if n.kind != "test":
             return False
         t = norm(n.ast)
-        return ("13" in t or "0x0D" in t or "'\\r'" in t) and ("lastv" in t or "%s[-1]" % var in t)
+        # `lastv == 0x0D` / `data[-1] == '\r'`, or -- for a one-character read -- `data == '\r'`
+        return ("13" in t or "0x0D" in t or "'\\r'" in t) and ("lastv" in t or "%s[-1]" % var in t or t.startswith("%s == " % var))
     tests = [n for n in cfg.nodes if last_char_test(n)]
     if not tests:
         raise AnalysisError("readChunk: trailing-CR test not found")
@@ -130,6 +131,8 @@ def run(ctx):
             return length > 0
         if t == "len(%s) >= 2" % var:
             return length >= 2
+        if t == "len(%s) == 1" % var:
+            return length == 1
         # any other test (including length tests against run-time quantities) is explored both ways
         return None
     for length, label in ((1, "len(data)=1"), (2, "len(data)>=2")):
@@ -458,7 +461,8 @@ def mutants():
           "        encoding = bomDict.get(string[:3])\n        seek = 3\n        if not encoding:\n            encoding = bomDict.get(string[:2])\n            seek = 2\n", "C05.13"),
         T("skip-empty-reads", REL, "        self.buffer.append(data)\n        self.position[0] += 1\n        self.position[1] = len(data)\n        return data", "        if data:\n            self.buffer.append(data)\n            self.position[0] += 1\n            self.position[1] = len(data)\n        return data", "C05.7"),
         T("counters-init-only", REL, "        # number of (complete) lines in previous chunks\n        self.prevNumLines = 0\n        # number of columns in the last line of the previous chunk\n        self.prevNumCols = 0\n\n        # Deal with CR LF and surrogates split over chunk boundaries", "        # Deal with CR LF and surrogates split over chunk boundaries", "C05.9"),
-        T("stdlib-codec", REL, "self.charEncoding[0].codec_info.streamreader(self.rawStream, 'replace')", "codecs.getreader(self.charEncoding[0].name)(self.rawStream, 'replace')", "C05.8"),
+        T("stdlib-codec", REL, "        self.decoder = codec_info.incrementaldecoder(errors)", "        self.decoder = codecs.getincrementaldecoder(codec_info.name)(errors)", "C05.8"),
+        T("stdlib-codec-reader", REL, "DecodingReader(self.rawStream, self.charEncoding[0].codec_info, 'replace')", "codecs.getreader(self.charEncoding[0].name)(self.rawStream, 'replace')", "C05.8"),
         T("charsuntil-stop-at-chunk-end", REL, "                if self.chunkOffset != self.chunkSize:\n                    break",
           "                if self.chunk:\n                    break", "C05.6"),
         T("publish-before-normalise", REL, "        # Replace invalid characters\n        data = data.replace(\"\\r\\n\", \"\\n\")\n        data = data.replace(\"\\r\", \"\\n\")\n\n        self.chunk = data\n        self.chunkSize = len(data)\n",
@@ -473,6 +477,7 @@ def mutants():
           "            data = self._bufferedCharacter + data", "C05.2"),
         T("unget-no-size", REL, "                self.chunk = char + self.chunk\n                self.chunkSize += 1", "                self.chunk = char + self.chunk", "C05.4"),
         T("char-off-by-one", REL, "        if self.chunkOffset >= self.chunkSize:\n            if not self.readChunk():", "        if self.chunkOffset > self.chunkSize:\n            if not self.readChunk():", "C05.5"),
+        T("lone-cr-not-extended", REL, "        while len(data) == 1 and (data == \"\\r\" or 0xD800 <= ord(data) <= 0xDBFF):\n            more = self.dataStream.read(chunkSize)\n            if not more:\n                break\n            data += more\n", "", "C05.3"),
         T("guard-gt-2", REL, "        if len(data) > 1:\n            lastv = ord(data[-1])", "        if len(data) > 2:\n            lastv = ord(data[-1])", "C05"),
     ]
 
